@@ -165,6 +165,11 @@ def worker_main(jobfile, shard, nshards):
             ps, plab, pd = g.edges[pi]
             fault = plab.get("k") if plab.get("exc") == "Fault" else None
             res = ml.execute(w, plab, fault=fault)
+            if res.get("world") is not None:
+                w = res["world"]
+            if res["exc"] is not None and plab.get("exc", "none") == "none":
+                stats["prefix_diverged"] += 1
+                return None
             exp = ml.spec_state(g.states[pd])
             try:
                 obs = ml.abs_state(w)
@@ -192,6 +197,9 @@ def worker_main(jobfile, shard, nshards):
         stats["edges"] += len(eis)
         isfault = lab.get("exc") == "Fault"
         res = ml.execute(w, lab, fault=lab.get("k") if isfault else None)
+        w0 = w
+        if res.get("world") is not None:
+            w = res["world"]
         try:
             obs = ml.abs_state(w)
         except ml.Uncovered as u:
@@ -208,6 +216,14 @@ def worker_main(jobfile, shard, nshards):
         got = res["excname"]
         okexc = (want == "none" and got is None) or (want == "ValueError" and got == "ValueError") or \
                 (want == "Fault" and got == "Fault") or (want == "noneOrValueError" and got in (None, "ValueError"))
+        xtag = None
+        if lab["a"] == "Transfer":
+            xtag = "C12" if lab["kind"].startswith("pickle") else "C11"
+        elif lab["a"] == "GenFun":
+            xtag = "C13"
+        if not okexc and xtag:
+            fail([xtag], f"{lab['a']}({lab.get('kind', lab.get('args'))}): raised {got}: {res['exc']!r}", eis[0], {"want": want, "got": got})
+            continue
         if not okexc:
             tags = ["C18"] if isfault else (["C17"] if (frozen_ctx or want == "ValueError") else ["C01", "C03"])
             if got not in (None, "ValueError", "Fault"):
@@ -237,9 +253,25 @@ def worker_main(jobfile, shard, nshards):
             continue
         exp = ml.spec_state(g.states[d])
         diff = ml.state_diff(obs, exp)
+        # ---- shadows: managers that must not be affected by what happens to this one (C12) --------------
+        shbad = None
+        for sw, snap in w.shadows:
+            try:
+                if ml.state_diff(ml.abs_state(sw), snap):
+                    shbad = repr(ml.state_diff(ml.abs_state(sw), snap))[:400]
+            except ml.Uncovered:
+                pass
+        if shbad:
+            fail(["C12"], f"after {lab['a']}: the other side of an earlier pickle round trip changed: {shbad}", eis[0], {"diff": shbad})
+            continue
         # ---- C02: set, multiplicity, order --------------------------------------------------------------
         ordkind = None
-        if "trig" in lab:
+        if lab["a"] == "GenFun":
+            ordkind, why = _order_ok(res.get("gen_order", []), lab)
+            if ordkind:
+                fail(["C13"], f"mk_fun({lab['args']}): {why}", eis[0], {"src": res.get("gen_src")},
+                     known="struct-cycle-order" if (lab.get("cyc") and ordkind == "order") else None)
+        elif "trig" in lab:
             ordkind, why = _order_ok(res["runs"], lab)
             if ordkind == "set":
                 fail(["C02"], f"{lab['a']}({lab['l']}): {why}", eis[0], {"runs": res["runs"], "trig": lab["trig"]})
@@ -263,6 +295,8 @@ def worker_main(jobfile, shard, nshards):
             if "frozen" in comps:
                 tags.add("C17")
             known = "struct-cycle-order" if (lab.get("cyc") and ordkind == "order" and comps == ["mem"]) else None
+            if xtag:
+                tags = {xtag}
             fail(sorted(tags), f"{lab['a']}({lab.get('l', lab.get('t', lab.get('kind', '')))}): state differs from the specification in {comps}: {repr(diff)[:300]}",
                  eis[0], {"diff": repr(diff)[:1500]}, known)
             continue
